@@ -387,6 +387,51 @@ fn inject(v: &mut Value, path: &[String], names: &[String], payload: &Value) -> 
     Ok(())
 }
 
+fn unquote_wide(text: &str) -> String {
+    let mut out = String::new();
+    let mut rest = text;
+    while let Some(i) = rest.find("\"@wide:") {
+        out.push_str(&rest[..i]);
+        let tail = &rest[i + 7..];
+        let j = tail.find('"').unwrap_or(tail.len());
+        out.push_str(&tail[..j]);
+        rest = &tail[(j + 1).min(tail.len())..];
+    }
+    out.push_str(rest);
+    out
+}
+
+struct Wide<'a>(&'a Value);
+impl serde::Serialize for Wide<'_> {
+    fn serialize<S: serde::Serializer>(&self, s: S) -> Result<S::Ok, S::Error> {
+        use serde::ser::{SerializeMap, SerializeSeq};
+        match self.0 {
+            Value::String(t) if t.starts_with("@wide:") => {
+                let digits = &t[6..];
+                match digits.strip_prefix('-') {
+                    Some(_) => s.serialize_i128(digits.parse().map_err(serde::ser::Error::custom)?),
+                    None => s.serialize_u128(digits.parse().map_err(serde::ser::Error::custom)?),
+                }
+            }
+            Value::Array(a) => {
+                let mut q = s.serialize_seq(Some(a.len()))?;
+                for x in a {
+                    q.serialize_element(&Wide(x))?;
+                }
+                q.end()
+            }
+            Value::Object(o) => {
+                let mut m = s.serialize_map(Some(o.len()))?;
+                for (k, v) in o {
+                    m.serialize_entry(k, &Wide(v))?;
+                }
+                m.end()
+            }
+            other => other.serialize(s),
+        }
+    }
+}
+
 fn c05_case(case: &Value) -> Result<Value, String> {
     use conjure_serde::{json as cj, smile as cs};
     let mut rng = Rng::new(case["seed"].as_u64().unwrap_or(1));
@@ -397,8 +442,9 @@ fn c05_case(case: &Value) -> Result<Value, String> {
     let clean = cj::to_string(&val).map_err(|e| e.to_string())?;
     let mut doc: Value = serde_json::from_str(&clean).map_err(|e| e.to_string())?;
     inject(&mut doc, &path, &names, &case["payload"])?;
-    let json_text = serde_json::to_string(&doc).map_err(|e| e.to_string())?;
-    let smile = serde_smile::to_vec(&doc).map_err(|e| e.to_string())?;
+    // "@wide:<decimal>" strings stand for integers beyond 64 bits: a bare number in the JSON text, a BigInteger in Smile
+    let json_text = unquote_wide(&serde_json::to_string(&doc).map_err(|e| e.to_string())?);
+    let smile = serde_smile::to_vec(&Wide(&doc)).map_err(|e| e.to_string())?;
     let mut out = serde_json::Map::new();
     macro_rules! run {
         ($name:expr, $de:expr) => {{
